@@ -11,9 +11,12 @@ COMMON_NOTE = (
     "canonicalisation in harness/sut.py, Fraction/JSON wire, Lean driver decoding); float64 is treated as exact on the dyadic "
     "input lattice (DESIGN.md §3); numpy/pandas/xarray/geographiclib behaviour is modelled, not verified. C01, C03, C04, C09, C11, C12, C14, C19, C20 also "
     "have source pins: literal tables and signature defaults read from /repo by harness/extract.py (Python ast) and checked by the kernel against "
-    "IoosQc/Theorems/SourcePin.lean on every run. C03, C09, C10 additionally have a TRANSLATED model: harness/translate.py regenerates the array-level "
-    "Lean definitions of gross_range_test, spike_test and rate_of_change_test from /repo's current source on every run and the kernel checks that they are the "
-    "definitions of IoosQc/Model/NpSrc.lean, which Theorems/NpSrc + NpRefine prove equal to the pointwise models (numpy.ma's data-under-mask semantics "
+    "IoosQc/Theorems/SourcePin.lean on every run. C03, C04, C08, C09, C10, C11, C12, C13, C14 additionally have a TRANSLATED model: harness/translate.py "
+    "(Python ast -> Lean, a translator that raises on anything outside its vocabulary) regenerates the array-level Lean definitions of ALL ELEVEN QC test "
+    "functions (gross_range, valid_range, location, climatology + ClimatologyConfig.check, spike, rate_of_change, flat_line, attenuated_signal, "
+    "density_inversion, pressure_increasing, speed) and of qartod_compare from /repo's current source on every run and the kernel checks that they are the "
+    "definitions of IoosQc/Model/NpSrc.lean / NpAgg.lean, which Theorems/NpSrc … NpSrc6 + NpRefine prove equal to the pointwise models the property "
+    "theorems are about (theorems Cxx_src_*; numpy.ma's data-under-mask semantics, strided windows, index arrays, for loops "
     "modelled in Model/Np and compared primitive by primitive with the installed numpy on every run); a rewritten body makes that pin 'reshaped' — "
     "nothing is claimed from it and the correspondence run remains the tie. C05, C06, C18 also compare complete real runs with the pipeline model "
     "IoosQc.systemRun (Model/System, Theorems/Sys)."
@@ -32,17 +35,23 @@ CHECKS = {
             "the property sentence for every series, span pair and inclusivity setting; the predicate `conforms spec` is "
             "evaluated on the real functions' output over an exhaustive span lattice and a seeded boundary generator. C03_np_gross / C03_src_gross: "
             "the array-level transcription of gross_range_test (raw data under masks, masked boolean indexes), regenerated from the source by "
-            "harness/translate.py, equals the pointwise model.",
+            "harness/translate.py, equals the pointwise model. C03_src_valid: the same for valid_range_test, for ARBITRARY raw data under the caller's mask "
+            "(that function does not fill masked cells with NaN: the hidden number is compared and flagged, and the closing MISSING assignment repairs it).",
             "Lean 4 proof (functional characterisation; refinement of the translated array-level program to the pointwise model) + "
             "differential correspondence + numpy-primitive correspondence"),
     "C04": ("Theorems C04_main, C04_compareAt, C04_perm, C04_dup, C04_assoc, C04_idem, C04_worst_ge/mem: the priority loop equals "
             "the maximum by precedence for every column; order / multiplicity / grouping independence proved outright; "
-            "correspondence runs qartod_compare, aggregate() and PandasStore.compute_aggregate on enumerated and random vectors.",
+            "correspondence runs qartod_compare, aggregate() and PandasStore.compute_aggregate on enumerated and random vectors (incl. non-flag values "
+            "a narrowing cast would turn into flags). C04_src_compare: the source-shaped transcription of qartod_compare (two nested for loops writing through "
+            "np.where index arrays), regenerated from the source, equals the model the aggregation theorems are about.",
             "Lean 4 proof (algebraic laws of the aggregate; C04_pin_priorities for every admissible priority table, instantiated with the "
-            "table read from the source) + differential correspondence"),
+            "table read from the source; refinement of the translated loop nest to the aggregation model) + differential correspondence"),
     "C08": ("Theorem C08_climatology (+ corollaries), parametric in the calendar function: fold over members = flag of the last "
-            "covering member; calendar fields checked against pandas day by day.",
-            "Lean 4 proof (fold induction) + differential correspondence incl. calendar sweep"),
+            "covering member; calendar fields checked against pandas day by day. C08_src_climatology: the source-shaped transcription of "
+            "ClimatologyConfig.check + climatology_test (for loop over the members with a continue, masked / plain boolean index algebra, three ordered "
+            "assignments per member), regenerated from the source, equals the pointwise model for columns of one length.",
+            "Lean 4 proof (fold induction; refinement of the translated member loop to the pointwise model) + differential correspondence incl. calendar sweep "
+            "+ numpy-primitive correspondence"),
     "C09": ("Theorem C09_spike (+ endpoints, threshold equality, method rejection) for both methods and all threshold "
             "combinations; exhaustive short series over a 5-symbol alphabet plus seeded generator on the real spike_test. C09_np_spike / "
             "C09_src_spike: the array-level transcription of spike_test (ref / diff arrays with raw data under masks, the write through a view, "
@@ -51,22 +60,32 @@ CHECKS = {
             "differential correspondence + numpy-primitive correspondence"),
     "C10": ("Theorems C10_roc, C10_speed (+ equality, length-mismatch corollaries) over strictly increasing whole-second axes; "
             "geodesic distance is an input of the model computed by the harness with the documented argument order. C10_np_roc / C10_src_roc: the "
-            "array-level transcription of rate_of_change_test, regenerated from the source by harness/translate.py, equals the pointwise model. "
+            "array-level transcription of rate_of_change_test, regenerated from the source by harness/translate.py, equals the pointwise model; C10_src_speed: "
+            "the same for argo.speed_test. "
             "Timestamps with a fractional second are covered through the whole-second axis of their elapsed times.",
             "Lean 4 proof (pointwise characterisation over Q; refinement of the translated array-level program) + differential correspondence "
             "+ numpy-primitive correspondence"),
     "C11": ("Theorem C11_flat: window lemma, floor lemma and override resolution for regular sampling, any durations and "
-            "tolerances; sweeps of n, k_s, k_f and plateau lengths on the real flat_line_test.",
-            "Lean 4 proof (window characterisation) + differential correspondence"),
+            "tolerances; sweeps of n, k_s, k_f and plateau lengths on the real flat_line_test. C11_src_flat: the source-shaped transcription "
+            "(strided 2-D window of the RAW data buffer, masked row minima / maxima, np.ma.filled, np.insert, two inlined run_test calls), regenerated from "
+            "the source, equals the pointwise model; the nested helper rolling_window is compared with the model's primitive by running /repo's own copy.",
+            "Lean 4 proof (window characterisation; refinement of the translated array-level program to the pointwise model) + differential correspondence "
+            "+ numpy-primitive correspondence"),
     "C12": ("Theorem C12_atten (+ trailing-window membership, min_obs, FAIL-wins): ordered assignments resolve to the property "
-            "sentence for both check types; statistics shared between spec and model are checked against pandas/numpy.",
-            "Lean 4 proof (override resolution, window membership) + differential correspondence"),
+            "sentence for both check types; statistics shared between spec and model are checked against pandas/numpy. C12_src_atten: the "
+            "source-shaped transcription (dispatch on check_type / test_period / min_obs / min_period, five ordered assignments), regenerated from the source, "
+            "equals the pointwise model (pandas' rolling window and the two spread functions stay primitives of the model).",
+            "Lean 4 proof (override resolution, window membership; refinement of the translated program) + differential correspondence"),
     "C13": ("Theorems C13_density, C13_pressure, C13_reverse: both members of an inverted pair flagged, mirrored flags for "
-            "reversed profiles, telescoping direction lemma; exhaustive short profiles on the real functions.",
-            "Lean 4 proof (pointwise characterisation, reversal symmetry) + differential correspondence"),
+            "reversed profiles, telescoping direction lemma; exhaustive short profiles on the real functions. C13_src_density / C13_src_pressure: the "
+            "source-shaped transcriptions (delta = sign(diff z) * diff rho with raw data under masks, `== True` of a masked boolean, the `any(...)` guards, "
+            "writes through views of the flag array; plain-array mean / sign / np.where index arithmetic), regenerated from the source, equal the pointwise models.",
+            "Lean 4 proof (pointwise characterisation, reversal symmetry; refinement of the translated array-level programs) + differential correspondence "
+            "+ numpy-primitive correspondence"),
     "C14": ("Theorem C14_location (+ edges inside, FAIL over SUSPECT): box membership and hop distance, for all tracks and "
-            "missing patterns; hop distances supplied by the harness' own geodesic call.",
-            "Lean 4 proof (pointwise characterisation) + differential correspondence"),
+            "missing patterns; hop distances supplied by the harness' own geodesic call. C14_src_location: the source-shaped transcription of "
+            "location_test, regenerated from the source, equals the pointwise model.",
+            "Lean 4 proof (pointwise characterisation; refinement of the translated array-level program) + differential correspondence + numpy-primitive correspondence"),
 }
 
 NOT_YET = {}
